@@ -161,7 +161,9 @@ func (t *t08) genTx() (pb.Transaction, string) {
 				args = append(args, randArg(r, t.pool))
 			}
 		}
-		t.w.SetAdd("methods_called", m.CName+"."+m.Name)
+		if t.w != nil {
+			t.w.SetAdd("methods_called", m.CName+"."+m.Name)
+		}
 		return w.BVM(k, types.NewAddressByStr(m.Contract), m.Name, args...), tag + ":" + m.CName + "." + m.Name
 	case x < 68: // malformed IBTPs
 		from, to := harness.FullID(harness.ChainA, "s1"), harness.FullID(harness.ChainB, "s1")
